@@ -178,7 +178,66 @@ def siblings(r, F):
                   "the garbage list is drained while the shard lock may be held", ln=f.lo)
 
 
+def drain_sites(r, F):
+    """every body that creates a garbage list `Vec<(Event, Arc<Record>)>` drains it: the listener is notified once per element (a loop over the list whose only
+    guard is the presence of a listener) and the evicted ones are offered to the pipe (send per element, or Pipe::flush with a piece per element)"""
+    n = 0
+    for f in F.all_fns("P"):
+        if f.crate.name != "foyer_memory" or "::tests::" in f.short or "test_utils" in f.file or not f.file.endswith("raw.rs"):
+            continue
+        ls = [l for l in range(f.nlocals) if re.match(r"^std::vec::Vec<\(foyer_common::event::Event, std::sync::Arc<", f.local_ty(l) or "")]
+        if not ls or not f.calls_to(r"Vec::<T>::new$|vec::from_elem|Vec::<T, A>::with_capacity"):
+            continue
+        n += 1
+        ons = f.calls_to(ON_LEAVE)
+        nxt = f.calls_to(r"Iterator::next$")
+        ok = bool(ons) and all(any(x.idx in f.reachable([c.idx]) and c.idx in f.reachable([x.idx]) for x in nxt) for c in ons)
+        # the element handed to the listener comes out of the garbage list
+        ok = ok and all(set(ls) & backslice(f, c.term.args[2], "dep").locals for c in ons)
+        r.require(ok, f, "garbage list drained to the listener", "on_leave(event, key, value) inside a loop over the list this body filled",
+                  "this body fills a garbage list but does not notify the listener for each of its records: entries leave memory without their leave notification", ln=f.lo)
+        snd = f.calls_to(SEND)
+        fl = f.calls_to(r"pipe::Pipe::flush$")
+        okp = bool(snd) or bool(fl)
+        for c in fl:
+            sl = backslice(f, c.term.args[1], "dep")
+            okp = okp and bool(set(ls) & sl.locals) and any(g.calls_to(r"pipe::Piece::<K, V, P>::new$") for g in F.descendants(f))
+        r.require(okp, f, "garbage list offered to the pipe", "Pipe::send per evicted element / Pipe::flush with a Piece per element", "this body fills a garbage list but never offers it to the pipe", ln=f.lo)
+    if n < 4:
+        r.fail(None, "sites", "only %d bodies creating a garbage list found (4 confirmed: insert_inner, evict_all, resize, flush)" % n)
+
+
+def _delegates(F, f, pat):
+    """f (or, when an attribute macro wrapped its body, its only closure) calls `pat` on every path"""
+    for g in [f] + F.descendants(f):
+        cs = g.calls_to(pat)
+        if cs and g.must_pass(0, [b.idx for b in cs]):
+            return True
+    return False
+
+
+def clear_chain(r, F):
+    """clear() and the drop of the cache reach every shard: RawCache::clear -> RawCacheInner::clear -> RawCacheShard::clear for each shard (no filtering), and
+    dropping the last RawCacheInner runs the same clear (so that every resident entry gets its Clear notification)"""
+    rc = F.method("foyer_memory::raw::RawCache", "clear")
+    r.require(_delegates(F, rc, r"RawCacheInner::<E, S, I>::clear$"), rc, "RawCache::clear -> RawCacheInner::clear", "delegates on every path",
+              "RawCache::clear does not call RawCacheInner::clear: Cache::clear() returns without removing or notifying anything", ln=rc.lo)
+    dr = F.method("foyer_memory::raw::RawCacheInner", "drop", "Drop")
+    r.require(_delegates(F, dr, r"RawCacheInner::<E, S, I>::clear$"), dr, "drop(RawCacheInner) -> clear", "the last owner's drop clears the cache",
+              "dropping the cache does not run clear(): resident entries leave memory without their Clear notification", ln=dr.lo)
+    ic = F.method("foyer_memory::raw::RawCacheInner", "clear")
+    bodies = [ic] + F.descendants(ic)
+    sc = [g for g in bodies if g.calls_to(r"RawCacheShard::<E, S, I>::clear$") and g.must_pass(0, [b.idx for b in g.calls_to(r"RawCacheShard::<E, S, I>::clear$")])]
+    filt = [b for g in bodies for b in g.calls_to(r"Iterator::(filter|take|skip|step_by|take_while|skip_while|filter_map)$")]
+    its = [b for g in bodies for b in g.calls_to(r"Iterator::for_each$|Iterator::next$")]
+    over = any(backslice(g, b.term.args[0], "dep").has_field("shards") for g in bodies for b in g.calls_to(r"Iterator::(for_each|map)$|IntoIterator::into_iter$|slice::<impl \[T\]>::iter$"))
+    r.require(bool(sc) and not filt and bool(its) and over, ic, "RawCacheInner::clear clears every shard", "iterates self.shards without a filtering adaptor; each shard's clear() runs unconditionally",
+              "RawCacheInner::clear does not clear every shard", ln=ic.lo)
+
+
 def run(chk, F):
+    chk.run_rule("C13.clear-chain", "clear() and the cache's drop reach RawCacheShard::clear of every shard", 3, clear_chain, F)
+    chk.run_rule("C13.drain-sites", "every body that fills a garbage list notifies the listener per element and offers the list to the pipe", 8, drain_sites, F)
     chk.run_rule("C13.pipe-callers", "Pipe::send only from insert_inner / evict_all / resize / last drop of a disk-only entry; Pipe::flush only from RawCache::flush", 5, pipe_callers, F)
     chk.run_rule("C13.evict-only", "piping is control-dependent on event == Evict; flush pipes evict() garbage only, which is tagged Evict", 5, evict_only, F)
     chk.run_rule("C13.events", "Replace / Remove / Clear / Evict constants per leave path; drain sites forward the recorded event", 8, events, F)
